@@ -318,7 +318,7 @@ func (g *Gen) classifyAllocs() {
 func (g *Gen) enterLoop(li *loopInfo, in *State) *State {
 	g.curPos = li.stmtPos
 	if li.spec == nil {
-		g.errorf("loop %d of %s has no invariant (every loop in a function under contract needs one)", li.ordinal, g.key)
+		g.note(fmt.Sprintf("loop %d of %s has no invariant: treated as `true` (everything the loop writes is havoc'd)", li.ordinal, g.key))
 		li.spec = &LoopSpec{Ordinal: li.ordinal}
 	}
 	// 1. invariant holds on entry
@@ -367,6 +367,18 @@ func (g *Gen) enterLoop(li *loopInfo, in *State) *State {
 		for _, k := range sortedKeys(st.heap) {
 			if goal, ok := g.frameGoal(k, st.heap[k]); ok {
 				g.assume(st.reach, goal)
+			}
+		}
+	}
+	// structural fact of go/ssa's lowering of `for i := range slice`: the hidden index stays in [-1, len-1]
+	if ri, ln := rangeIndexLoop(li.header); ri != nil {
+		if v, ok := st.locals[ri]; ok {
+			if lv, ok := g.vals[ln]; ok {
+				if g.bv {
+					g.assume(st.reach, fmt.Sprintf("(and (bvsle %s %s) (bvslt %s %s))", bvLit(big.NewInt(-1), 64), v.T, v.T, lv.T))
+				} else {
+					g.assume(st.reach, fmt.Sprintf("(and (<= (- 1) %s) (< %s %s))", v.T, v.T, lv.T))
+				}
 			}
 		}
 	}
@@ -528,9 +540,36 @@ func (g *Gen) ghostWrittenIn(li *loopInfo, name string) bool {
 		return false
 	}
 	for _, r := range g.spec.Calls {
+		sets := false
 		for _, s := range r.Sets {
 			if s.Var == name {
-				return true // conservative: any rule may fire in the loop
+				sets = true
+			}
+		}
+		if !sets {
+			continue
+		}
+		if r.IsStore {
+			return true
+		}
+		for b := range li.body {
+			for _, in := range b.Instrs {
+				switch x := in.(type) {
+				case *ssa.Defer:
+					if g.ruleMatches(r, x.Common(), "defer ") {
+						return true
+					}
+				case *ssa.Go:
+					if g.ruleMatches(r, x.Common(), "go ") {
+						return true
+					}
+				case ssa.CallInstruction:
+					if g.ruleMatches(r, x.Common(), "") {
+						return true
+					}
+				case *ssa.RunDefers:
+					return true
+				}
 			}
 		}
 	}
@@ -1467,3 +1506,25 @@ func (g *Gen) resolveMapName(s string) string {
 }
 
 func sortStrings(xs []string) []string { sort.Strings(xs); return xs }
+
+// rangeIndexLoop recognises the header of go/ssa's range-over-slice/array lowering:
+//   t = *rangeindex ; t' = t + 1 ; *rangeindex = t' ; c = t' < len ; if c ...
+func rangeIndexLoop(h *ssa.BasicBlock) (*ssa.Alloc, ssa.Value) {
+	if h.Comment != "rangeindex.loop" || len(h.Instrs) < 5 {
+		return nil, nil
+	}
+	ld, ok := h.Instrs[0].(*ssa.UnOp)
+	if !ok || ld.Op != token.MUL {
+		return nil, nil
+	}
+	a, ok := ld.X.(*ssa.Alloc)
+	if !ok || a.Comment != "rangeindex" {
+		return nil, nil
+	}
+	for _, in := range h.Instrs {
+		if b, ok := in.(*ssa.BinOp); ok && b.Op == token.LSS {
+			return a, b.Y
+		}
+	}
+	return nil, nil
+}
